@@ -9,7 +9,7 @@ LEVEL = dict(
               "from (code, stored value), never from where its interval happens to start: no use of RangeInclusive::start in "
               "ToUnicodeCMap::get; single-unit targets are stored as a translation-invariant offset (wrapping_sub at insertion, "
               "wrapping_add at lookup); end < start is rejected before insertion; later sections overwrite earlier ones; one constant "
-              "4 for the maximum code length in the parser, the map array, get/put and the byte-to-text loop",
+              "4 for the maximum code length in the parser, the map array, get/put and the byte-to-text loop; the parser collects the sections with an order-preserving collector and nothing between the parser and from_sections rearranges them",
     explanation="Decides the representation invariants without which `last definition wins` and `offset within the range` cannot hold "
                 "under splitting/merging. Does not decide that decoded text equals the CMap's definition in general.",
     trusted_base=["rustc MIR and callee resolution", "rangemap::RangeInclusiveMap semantics (coalescing, overwrite on insert)"],
